@@ -197,6 +197,7 @@ class VdbHarness(Harness):
         kind = self.ob.get("kind", "vdb")
         mod = repo_ops if kind == "vdb" else bin_ops
         td = os.path.realpath(tempfile.mkdtemp(prefix="c29-"))
+        twin_error = None
         try:
             states = {}
             for run in ("twin", "real"):
@@ -210,7 +211,10 @@ class VdbHarness(Harness):
                     run_op("install", tree, None, old, domain, kind)
                 before = view(loc, kind)
                 if run == "twin":
-                    run_op(op, tree, old, new, domain, kind)
+                    try:
+                        run_op(op, tree, old, new, domain, kind)
+                    except Exception as e:
+                        twin_error = type(e).__name__
                     states["after"] = view(loc, kind)
                     states["before"] = before
                     continue
@@ -227,6 +231,12 @@ class VdbHarness(Harness):
         finally:
             shutil.rmtree(td, ignore_errors=True)
         out = {"op": op, "rich": c["rich"], "stop_at": c["stop_at"], "stopped_in": counter.hit, "operations": counter.trace, "outcome": outcome, "problem": None}
+        if twin_error is not None:
+            out["problem"] = f"the undisturbed {op} does not complete: {twin_error}"
+            return out
+        if counter.hit is None and seen != states["after"]:
+            out["problem"] = f"the undisturbed {op} ended in a state that differs from run to run"
+            return out
         if counter.hit is None:
             return out
         ok = seen == states["before"] or seen == states["after"]
